@@ -1,6 +1,7 @@
 package loader
 
 import (
+	"bytes"
 	"encoding/json"
 	"fmt"
 	"io/ioutil"
@@ -243,6 +244,14 @@ func CheckC16(env *core.Env, rep *core.Report) *core.Result {
 			if !ok {
 				core.Broken("cannot serialise an abstract configuration as %s: %s", f, c.dev())
 			}
+			if f == "json" && i%2 == 1 {
+				// the same JSON value in another spelling JSON allows: solidus escaped, a character outside
+				// the basic plane as a surrogate pair
+				b = bytes.ReplaceAll(b, []byte("/bin/echo"), []byte("\\/bin\\/echo"))
+				b = bytes.ReplaceAll(b, []byte("a dependency"), []byte("a dependency \\ud83d\\ude00"))
+			} else if i%2 == 1 {
+				b = bytes.ReplaceAll(b, []byte("a dependency"), []byte("a dependency \U0001F600"))
+			}
 			cfg := filepath.Join(d, "cfg."+f)
 			_ = ioutil.WriteFile(cfg, b, 0o644)
 			docs[f] = string(b)
@@ -422,6 +431,46 @@ func CheckC16(env *core.Env, rep *core.Report) *core.Result {
 		if outs["yaml"] != outs["json"] || !strings.Contains(outs["yaml"], "[list]: exit=0") {
 			rep.Add(core.Finding{Prop: "C16", Key: "C16:yaml-anchors-and-merge-keys-differ-from-the-written-out-json", What: "a YAML file that uses anchors and merge keys (one merged value overridden, two merged anchors sharing a key) and the same configuration written out as JSON give different results",
 				Detail: map[string]interface{}{"yaml": yml, "json": jsn, "yaml_results": clipS(outs["yaml"], 1500), "json_results": clipS(outs["json"], 1500)}})
+		}
+	}
+	// a string-or-list field given as a string in one file and as a list in the file it imports (and the
+	// other way round): whatever the merge makes of that, it makes the same of it in every format
+	{
+		outs := map[string]string{}
+		for _, f := range formats {
+			d := env.Sub("fmtmix")
+			trace := filepath.Join(d, "trace")
+			mainDoc := M{"import": L{"imp." + f}, "tasks": M{
+				"m1": M{"command": "/bin/echo m1-main >> " + trace, "before": L{"/bin/echo m1-before-main >> " + trace}},
+				"m2": M{"command": L{"/bin/echo m2-main >> " + trace}, "after": "/bin/echo m2-after-main >> " + trace}},
+				"watchers": M{"w": M{"task": "m1", "watch": "*.go", "events": L{"write"}}}}
+			impDoc := M{"tasks": M{
+				"m1": M{"command": L{"/bin/echo m1-imp >> " + trace}, "before": "/bin/echo m1-before-imp >> " + trace},
+				"m2": M{"command": "/bin/echo m2-imp >> " + trace, "after": L{"/bin/echo m2-after-imp >> " + trace}}},
+				"watchers": M{"w": M{"task": "m1", "watch": L{"*.txt"}, "events": "create"}}}
+			bm, _ := serialise(mainDoc, f)
+			bi, _ := serialise(impDoc, f)
+			_ = ioutil.WriteFile(filepath.Join(d, "cfg."+f), bm, 0o644)
+			_ = ioutil.WriteFile(filepath.Join(d, "imp."+f), bi, 0o644)
+			var all strings.Builder
+			for _, args := range [][]string{{"list"}, {"show", "m1"}, {"show", "m2"}, {"--raw", "m1"}, {"--raw", "m2"}} {
+				_ = ioutil.WriteFile(trace, nil, 0o644)
+				res := e.run(d, "", 20*time.Second, append([]string{"-c", filepath.Join(d, "cfg."+f)}, args...)...)
+				atomic.AddInt64(&runs, 1)
+				tb, _ := ioutil.ReadFile(trace)
+				st := normalise(strings.ReplaceAll(strings.ReplaceAll(res.Stdout, "cfg."+f, "cfg.X"), "imp."+f, "imp.X"), d)
+				if strings.HasPrefix(args[0], "--raw") || res.Exit != 0 {
+					st = ""
+				}
+				fmt.Fprintf(&all, "%v: exit=%d crashed=%v trace=%q\n%s\n", args, res.Exit, res.Crashed() || res.TimedOut, string(tb), st)
+			}
+			outs[f] = all.String()
+		}
+		for _, f := range []string{"json", "toml"} {
+			if outs[f] != outs["yaml"] || strings.Contains(outs[f], "crashed=true") {
+				rep.Add(core.Finding{Prop: "C16", Key: "C16:string-or-list-across-import-differs:" + f, What: fmt.Sprintf("fields given as a string in one file and as a list in the file it imports: the %s files and the yaml files give different results", f),
+					Detail: map[string]interface{}{"yaml_results": clipS(outs["yaml"], 1500), f + "_results": clipS(outs[f], 1500)}})
+			}
 		}
 	}
 	return e.result("model_checking", int(runs), len(sel),
